@@ -1,4 +1,5 @@
 import Dashu.Model.Int.Repr
+import Dashu.Gen.Misc
 /-
   Division layer of the integer model (C02): mirrors `integer/src/div/mod.rs`, `div/simple.rs`,
   `shift.rs` (the loops division uses), `div_ops.rs` (`mod repr` dispatch and the sign tables) and
@@ -337,8 +338,8 @@ def simpleDivRemInPlace (W : Nat) (lhs rhs : List Nat) (dtop : Nat) : Except Pan
 
 -- ------------------------------------------------------------------ div/mod.rs: multi-word divisor
 
-/-- `THRESHOLD_SIMPLE` -/
-def thresholdSimple : Nat := 32
+/-- `THRESHOLD_SIMPLE` of integer/src/div/mod.rs (regenerated from source on every run) -/
+def thresholdSimple : Nat := Dashu.Gen.div_THRESHOLD_SIMPLE
 
 /-- exactly `n` little-endian words of `v` -/
 def toWords (W : Nat) : Nat → Nat → List Nat
